@@ -24,7 +24,13 @@ type Program struct {
 	mu        sync.Mutex
 }
 
-const repoDir = "/repo"
+// repoDir is /repo; VERIF_REPO overrides it only for the seeded-change tooling (tools/matrix.sh).
+var repoDir = func() string {
+	if d := os.Getenv("VERIF_REPO"); d != "" {
+		return d
+	}
+	return "/repo"
+}()
 const libPath = "github.com/jmespath/go-jmespath"
 
 func verifDir() string {
